@@ -265,35 +265,47 @@ class Environment:
         return self.execute(self.run_arguments(args, lang), *posargs, **kwargs)
 
     def save(self, path):
-        with open(os.path.join(path, self.envfile), 'w') as out:
-            json.dump({
-                'version': self.version,
-                'data': {
-                    'bfgdir': self.bfgdir.to_json(),
-                    'backend': self.backend,
-                    'backend_version': (str(self.backend_version)
-                                        if self.backend_version is not None
-                                        else None),
+        filename = os.path.join(path, self.envfile)
+        data = json.dumps({
+            'version': self.version,
+            'data': {
+                'bfgdir': self.bfgdir.to_json(),
+                'backend': self.backend,
+                'backend_version': (str(self.backend_version)
+                                    if self.backend_version is not None
+                                    else None),
 
-                    'host_platform': self.host_platform.to_json(),
-                    'target_platform': self.target_platform.to_json(),
+                'host_platform': self.host_platform.to_json(),
+                'target_platform': self.target_platform.to_json(),
 
-                    'srcdir': self.srcdir.to_json(),
-                    'builddir': self.builddir.to_json(),
-                    'install_dirs': {
-                        k.name: try_to_json(v)
-                        for k, v in self.install_dirs.items()
-                    },
-                    'toolchain': self.toolchain.to_json(),
-                    'mopack': [i.to_json() for i in self.mopack],
+                'srcdir': self.srcdir.to_json(),
+                'builddir': self.builddir.to_json(),
+                'install_dirs': {
+                    k.name: try_to_json(v)
+                    for k, v in self.install_dirs.items()
+                },
+                'toolchain': self.toolchain.to_json(),
+                'mopack': [i.to_json() for i in self.mopack],
 
-                    'library_mode': self.library_mode,
-                    'compdb': self.compdb,
-                    'extra_args': self.extra_args,
+                'library_mode': self.library_mode,
+                'compdb': self.compdb,
+                'extra_args': self.extra_args,
 
-                    'variables': self.variables.to_json(),
-                }
-            }, out)
+                'variables': self.variables.to_json(),
+            }
+        })
+
+        # The saved environment is an input of the regeneration step, so only
+        # touch it when the configuration really changed; otherwise every
+        # regeneration would look like it had a newer input.
+        try:
+            with open(filename) as inp:
+                if inp.read() == data:
+                    return
+        except OSError:
+            pass
+        with open(filename, 'w') as out:
+            out.write(data)
 
     @classmethod
     def load(cls, path):
